@@ -1,10 +1,12 @@
 CONSTANTS
-  MaxSteps = 2
+  MaxSteps = 3
   MaxLen = 4
   Hist = FALSE
   ClearBeforeCopy = FALSE
   CopyThroughSet = FALSE
-  AliasedFirstAssignment = FALSE
-  UnhookedExtend = TRUE
+  AliasedFirstAssignment = TRUE
+  UnhookedExtend = FALSE
 SPECIFICATION Spec
+INVARIANT KeepsData
 INVARIANT InfersAlike
+PROPERTY Monotone
